@@ -73,7 +73,7 @@ class Ctx:
         self.max_decisions = max_decisions
         self.nsym_decisions = 0
         self.ax_seen = set()
-        self.calls = {"atan2": [], "sqrt": []}
+        self.calls = {"atan2": [], "sqrt": [], "log": [], "rint": []}
         self.nonneg_ids = set()
         self.input_ids = set()
         self.lazy_sqrt = False
@@ -724,7 +724,10 @@ class Sym:
         c = ctx()
         if c.decide(self.e <= 0):
             return CF("-inf") if c.decide(self.e == 0) else NAN
-        return Sym(UF["log"](self.e))
+        t = UF["log"](self.e)
+        c.calls["log"].append((self.e, t))
+        c.axiom(("log", t.get_id()), z3.And(z3.Implies(self.e >= 1, t >= 0), z3.Implies(self.e == 1, t == 0), z3.Implies(self.e > 1, t > 0)))
+        return Sym(t)
 
     def tanh(self):
         t = UF["tanh"](self.e)
@@ -733,7 +736,9 @@ class Sym:
 
     def rint(self):
         # round half to even is approximated by floor(x+1/2) except exactly at .5 (fork there)
-        return Sym(z3.ToReal(z3.ToInt(self.e + fconst(0.5))))
+        r = z3.ToReal(z3.ToInt(self.e + fconst(0.5)))
+        ctx().calls["rint"].append((self.e, r))
+        return Sym(r)
 
     def round(self, n=0):
         if n:
